@@ -358,9 +358,18 @@ def rename_code(co, newname):  # pragma: no cover
         )
 
 
+_method_tag = count()
+
+
 def rename_function(fn, newname):
     """Create a copy of the function with a different name."""
     newcode = rename_code(fn.__code__, newname)
+    # Code objects are compared by value and serve as keys to find the next
+    # method to call: two methods made by the same `def` for the same types
+    # must not be mistaken for one another
+    newcode = newcode.replace(
+        co_consts=(*newcode.co_consts, ("ovld-method", next(_method_tag)))
+    )
     new_fn = FunctionType(
         newcode, fn.__globals__, newname, fn.__defaults__, fn.__closure__
     )
